@@ -332,7 +332,11 @@ def _sym_int(x=0, *a):
 
 def _sym_len(x):
     if hasattr(x, "length") and not isinstance(x, (list, tuple, dict, str, np.ndarray)):
-        return x.length
+        n = x.length
+        if hasattr(x, "concrete_length") and not isinstance(n, int):
+            k = x.concrete_length()
+            return n if k is None else k
+        return n
     return len(x)
 
 
@@ -641,6 +645,25 @@ class Obj:
     def __class__(self):
         d = object.__getattribute__(self, "__dict__")
         return ClsObj(d["_pv_world"], d["_pv_real"])
+
+
+def _forward(name):
+    def f(self, *a, **k):
+        d = object.__getattribute__(self, "__dict__")
+        hit = _class_lookup(d["_pv_world"], d["_pv_real"], name)
+        if hit is None:
+            if name in ("__eq__", "__ne__"):
+                return (self is a[0]) if name == "__eq__" else (self is not a[0])
+            raise TypeError(f"{d['_pv_real'].__name__} has no {name} in its source")
+        return hit[1](self, *a, **k)
+    f.__name__ = name
+    return f
+
+
+for _n in ("__call__", "__getitem__", "__setitem__", "__len__", "__iter__", "__next__", "__contains__", "__add__", "__radd__",
+           "__sub__", "__rsub__", "__neg__", "__lt__", "__le__", "__gt__", "__ge__", "__eq__", "__ne__", "__matmul__", "__rmatmul__"):
+    setattr(Obj, _n, _forward(_n))
+Obj.__hash__ = object.__hash__
 
 
 class ClsObj:
